@@ -947,6 +947,19 @@ def implicit_inside_explicit(repo, rep, rule="R10.1"):
         ok = any(any("I18N, 'translate'" in c and "in ns" in c and b
                      for c, b in cs) for cs in off) and any(
             stack in k and "-1" in k for k in vals)
+        # ... on EVERY path: whatever else the element carries (i18n:name),
+        # a value other than False is chosen only where the element is
+        # known not to be marked
+        for k, css in vals.items():
+            if k == "False":
+                continue
+            for cs in css:
+                if not any("I18N, 'translate'" in c and "in ns" in c
+                           and not b for c, b in cs):
+                    ok = False
+                    detail = "value %s chosen without excluding " \
+                             "i18n:translate: %s" % (k, [(c, b) for c, b
+                                                         in cs])
     rep.check(ok, rule, f.qualname, "an element marked i18n:translate "
               "switches implicit translation off for its own text, other "
               "elements inherit the setting", construct="implicit-off-inside-"
